@@ -618,7 +618,7 @@ def mass_checks(ctx, R, rng, t, q_rod, u_rod, label):
             ctx.violation("System.M", "mass matrix changes when the system is assembled again (1/2 u^T M u no longer the kinetic energy)",
                           {"max_change": float(np.max(np.abs(M2 - M))) if M2.shape == M.shape else "shape", "max_entry": mx, **ex})
     # independent closed form: rigid translation of a straight rod, m = A_rho0 * L
-    if R.spec["ref"] == "straight":
+    if R.spec["ref"] in ("straight", "graded"):
         vv = rng.normal(size=3)
         ut = rodgen.pack_u(np.tile(vv, (nn, 1)), np.zeros((nn, 3)))
         Et = float(rod.E_kin(t, q_rod, ut))
